@@ -91,7 +91,8 @@ def gen_nest(rng, depth, outer_flavour, explicit_procs=False):
         # an explicit process backend requested from inside a THREAD worker must fall back to sequential; (inside
         # process workers the stub shares one interpreter and one reusable executor, which real workers do not)
         backends += ["loky", "multiprocessing"]
-    return {"n": rng.randint(1, 4), "n_jobs": rng.choice([1, 2, 3, -1]), "backend": rng.choice(backends),
+    # (more tasks than 2 * n_jobs: the later ones are dispatched from completion callbacks, in threads of the pool)
+    return {"n": rng.choice([1, 2, 3, 4, 4, 6, 9]) if depth == 1 else rng.randint(1, 4), "n_jobs": rng.choice([1, 2, 3, -1]), "backend": rng.choice(backends),
             "prefer": rng.choice([None, None, "threads", "processes"]),
             "require": rng.choice([None, None, None, "sharedmem"]),
             "nest": gen_nest(rng, depth + 1, outer_flavour, explicit_procs)}
@@ -134,6 +135,13 @@ def gen_e4(rng):
         n = rng.choice([2, 4, 7, 10, 14])
         steps.append({"kind": kind, "n_jobs": nj, "n": n, "dur": [rng.choice([0.0, 0.01, 0.2, 0.2, 1.0]) for _ in range(n)],
                       "gap": rng.choice([0.0, 0.0, 0.05, 2.0, 400.0])})
+        if rng.random() < 0.2 and kind in ("call", "with_calls") and n > 2:
+            # slow input: the caller's thread waits about one idle-worker timeout for an item in the middle of its
+            # initial dispatch -- the idle workers leave while, or just before, the next task is submitted
+            k_ = rng.randint(1, 3)
+            steps[-1]["slow_at"] = k_
+            steps[-1]["slow_delay"] = rng.choice([300.0, 300.0, 300.0, 299.9, 300.1, 150.0])
+            steps[-1]["dur"] = [0.0] * k_ + steps[-1]["dur"][k_:]
         if kind == "with_intruder":
             # inside the with-block of one Parallel object, ANOTHER Parallel object with another n_jobs is called in between
             # (both name their backend themselves: objects created under one parallel_config(backend=...) share a single
@@ -141,6 +149,14 @@ def gen_e4(rng):
             # executor is resized; 2 gives another one, so it is replaced)
             steps[-1]["n_jobs"] = rng.choice([3, 4, 5, 6])
             steps[-1]["intruder_n_jobs"] = rng.choice([2, 3, 4, 5, 6])
+    if rng.random() < 0.12:
+        # focus: the workers' idle timeout and the late input item fall on the same simulated instant
+        nj = rng.choice([2, 2, 3, 4])
+        n = rng.choice([3, 4, 6])
+        k_ = rng.randint(1, min(n - 1, 2 * nj - 1))
+        steps = ([{"kind": "call", "n_jobs": nj, "n": 2, "dur": [0.0, 0.0], "gap": 0.0}] if rng.random() < 0.5 else []) + [
+            {"kind": rng.choice(["call", "with_calls"]), "n_jobs": nj, "n": n, "dur": [0.0] * k_ + [rng.choice([0.0, 0.2, 1.0]) for _ in range(n - k_)],
+             "gap": 0.0, "slow_at": k_, "slow_delay": 300.0}]
     return {"e4": True, "steps": steps, "fixed_inner": fixed_inner, "batch_size": rng.choice([1, 1, 2, "auto"]),
             "strategy": dict(rng.choice(ds.STRATEGIES), **{"p_jump": 0.0}), "sched_seed": rng.randrange(1 << 31)}
 
@@ -235,7 +251,7 @@ def e4_work(c, i, dur):
     w = W4
     w["running"] += 1
     w["hi"][c] = max(w["hi"].get(c, 0), w["running"])
-    w["alive_hi"][c] = max(w["alive_hi"].get(c, 0), sum(1 for p_ in w["world"].procs if p_.alive))
+    w["alive_hi"][c] = max(w["alive_hi"].get(c, 0), sum(1 for p_ in w["world"].procs if p_.alive and not getattr(p_, "leaving", False)))
     w["pids"].setdefault(c, set()).add(me.proc.pid if me.proc else None)
     if dur:
         s.sleep(dur)
@@ -256,7 +272,7 @@ def run_e4(case):
     __import__("logging").disable(50)
     tmp = tempfile.mkdtemp(prefix="c15_", dir="/dev/shm")
     os.environ["JOBLIB_TEMP_FOLDER"] = tmp
-    gaps = sum(st["gap"] for st in case["steps"])
+    gaps = sum(st["gap"] + 2 * st.get("slow_delay", 0.0) for st in case["steps"])
     s = ds.run_sim(case["sched_seed"], None, decisions=case.get("decisions"), strategy=case.get("strategy"),
                    trace_files=sp.TRACE_FILES, max_steps=case.get("max_steps", 600000),
                    max_time=150.0 + 2 * gaps + 2 * sum(sum(st["dur"]) for st in case["steps"]), keep_log=case.get("keep_log", 0))
@@ -267,7 +283,12 @@ def run_e4(case):
 
     def one_call(p, c, st, rec):
         try:
-            r = p(delayed(e4_work)(c, i, st["dur"][i]) for i in range(st["n"]))
+            def tasks():
+                for i in range(st["n"]):
+                    if i == st.get("slow_at"):
+                        s.sleep(st["slow_delay"])
+                    yield delayed(e4_work)(c, i, st["dur"][i])
+            r = p(tasks())
             rec["outcome"] = "ok" if r == [(c, i) for i in range(st["n"])] else "WRONG:%s" % (r[:6],)
         except BaseException as e:  # noqa
             rec["outcome"] = "EXC:%s:%s" % (type(e).__name__, str(e)[:120])
@@ -342,7 +363,8 @@ def run_e4(case):
                 break
     res = {"verdict": verdict, "digest": s.h.hexdigest()[:24], "shape": s.hs.hexdigest()[:16], "steps": s.steps,
            "switches": s.switches, "sim_time": round(s.now, 3),
-           "faults": {k: v_ for k, v_ in {"idle_gap_beyond_worker_timeout": sum(1 for st in case["steps"] if st["gap"] >= 300)}.items() if v_},
+           "faults": {k: v_ for k, v_ in {"idle_gap_beyond_worker_timeout": sum(1 for st in case["steps"] if st["gap"] >= 300),
+                                          "input_item_late_by_one_worker_timeout": sum(1 for st in case["steps"] if st.get("slow_delay", 0) >= 299)}.items() if v_},
            "probes": {"real_loky_executor_history": 1, "executor_never_given_a_task": sum(1 for st in case["steps"] if st["kind"] in ("empty", "with_nocall")),
                       "worker_processes_spawned": len(world.procs)},
            "nontrivial": any(v_ > 1 for v_ in W4["hi"].values()),
